@@ -243,10 +243,18 @@ def run_script(ctx, L, shape, script, fin, serial):
                         names = fx.names[:k] if useq % 3 else fx.names[-k:]
                     rc, upk = L.packet_create(names)
                     newvals = {}
-                    for n in names:
+                    for j, n in enumerate(names):
                         pv = ('char', 'u%d_%s_%d' % (useq, n, serial), bool(useq % 2))
                         if not pv[2]:
                             pv = ('char', 'u%d%s%d' % (useq, n, serial), False)
+                        # an update is also how a stored value is replaced by the unknown / not-applicable value
+                        r = (useq + j + serial) % 6
+                        if op == 'U' and r == 0:
+                            pv = ('unk',)
+                        elif op == 'U' and r == 1:
+                            pv = ('na',)
+                        elif op == 'U' and r == 2:
+                            pv = ('numb', '%d.5(2)' % (useq + serial % 1000), False)
                         newvals[n] = pv
                         v = L.make_value(pv)
                         L.packet_set(upk, n, v)
